@@ -26,26 +26,47 @@ func (x *Exec) hashGroup(sc *Scenario, st *Step) {
 		}
 	}
 	hashes := st.Reads
-	steps := []Step{
-		{Op: "New", Recv: -1, Data: []ColData{{Name: toBS("K"), Kind: "float", Floats: fl}}},
-		{Op: "WithRowNums", Recv: 0, Dst: toBS("rid")},
-	}
-	if st.Other == 1 {
-		steps = append(steps, Step{Op: "GroupBy", Recv: 1, Cols: bsList([]string{"K"}), Null: st.Null, Rid: toBS("rid")})
-	} else {
-		steps = append(steps, Step{Op: "Distinct", Recv: 1, Cols: bsList([]string{"K"}), Null: st.Null, Rid: toBS("rid")})
-	}
-	for k := range steps {
-		x.step = k + 1
-		if k == 2 {
-			grouper.VerifHash = func(i uint32) (uint32, bool) {
-				if int(i) < len(hashes) {
-					return uint32(hashes[i]), true
-				}
-				return 0, false
-			}
+	// the same keys as a string column (0 -> null, 3 -> the same string as 2) and, for a third of the
+	// behaviours, as an enum column: every key type has its own Compare and Hash
+	strs := make([]*BS, len(st.Opts))
+	for i, k := range st.Opts {
+		switch k {
+		case 0:
+		case 3:
+			strs[i] = bsp("k2")
+		default:
+			strs[i] = bsp("k" + itoa(k))
 		}
-		x.runStep(sc, &steps[k])
-		grouper.VerifHash = nil
+	}
+	variants := []Step{
+		{Op: "New", Recv: -1, Data: []ColData{{Name: toBS("K"), Kind: "float", Floats: fl}}},
+		{Op: "New", Recv: -1, Data: []ColData{{Name: toBS("K"), Kind: "string", Strs: strs}}},
+	}
+	if len(hashes)%3 == 0 {
+		variants = append(variants, Step{Op: "New", Recv: -1, HasEnums: true, Enums: []EnumDecl{{Name: toBS("K"), Vals: nil}}, Data: []ColData{{Name: toBS("K"), Kind: "string", Strs: strs}}})
+	}
+	n := 0
+	for v := range variants {
+		base := len(x.frames) // the family grows by two or three frames per variant
+		steps := []Step{variants[v], {Op: "WithRowNums", Recv: base, Dst: toBS("rid")}}
+		if st.Other == 1 {
+			steps = append(steps, Step{Op: "GroupBy", Recv: base + 1, Cols: bsList([]string{"K"}), Null: st.Null, Rid: toBS("rid")})
+		} else {
+			steps = append(steps, Step{Op: "Distinct", Recv: base + 1, Cols: bsList([]string{"K"}), Null: st.Null, Rid: toBS("rid")})
+		}
+		for k := range steps {
+			n++
+			x.step = n
+			if k == 2 {
+				grouper.VerifHash = func(i uint32) (uint32, bool) {
+					if int(i) < len(hashes) {
+						return uint32(hashes[i]), true
+					}
+					return 0, false
+				}
+			}
+			x.runStep(sc, &steps[k])
+			grouper.VerifHash = nil
+		}
 	}
 }
